@@ -35,8 +35,9 @@ def _logging_interp(ctx):
     ai = codec.make_interp(ctx)
     byq = {}
     for name, ref in table.items():
-        if isinstance(ref, FuncRef):
-            byq.setdefault(ref.info.qname, []).append(name)
+        q = codec.check_key(ref)
+        if q is not None:
+            byq.setdefault(q, []).append(name)
 
     def mk(q):
         def summ(interp, args, kwargs, node):
@@ -47,8 +48,12 @@ def _logging_interp(ctx):
             log_event('check', q, v)
             return None
         return summ
-    for q in byq:
-        ai.summaries[q] = mk(q)
+    for name, ref in table.items():
+        q = codec.check_key(ref)
+        if isinstance(ref, FuncRef):
+            ai.summaries[q] = mk(q)
+        elif q is not None:
+            ai.value_summaries[id(ref)] = mk(q)      # a closure made by a factory: summarised by identity
     ai.check_names = byq
     return ai, table
 
@@ -69,7 +74,7 @@ def _checked_before_stores(log, table, obj, expect):
     first_store = next((i for i, e in enumerate(log) if e[0] == 'store' and e[1] is obj), len(log))
     for attr, marker in expect.items():
         ref = table.get(attr)
-        q = ref.info.qname if isinstance(ref, FuncRef) else None
+        q = codec.check_key(ref)
         hit = any(e[0] == 'check' and e[1] == q and _derived(e[2], marker) for e in log[:first_store])
         if not hit:
             return False, f'value of {attr!r} is stored without a preceding {q.split("::")[1] if q else "check"}'
@@ -83,7 +88,7 @@ def _stored_items_checked(log, table, obj, attr):
     stored = obj.attrs.get(attr)
     items = [x for x in stored.items if isinstance(x, SeqVar)] if isinstance(stored, AList) else []
     ref = table.get(attr)
-    q = ref.info.qname if isinstance(ref, FuncRef) else None
+    q = codec.check_key(ref)
     seen = []
     for e in log[:first_store]:
         if e[0] == 'check' and e[1] == q and isinstance(e[2], AList):
@@ -186,7 +191,7 @@ def r03_2b(ctx):
         log = outs[0].log
         for attr, marker in list(mk.items()) + [('type', t)]:
             ref = table.get(attr)
-            q = ref.info.qname if isinstance(ref, FuncRef) else None
+            q = codec.check_key(ref)
             hit = any(e[0] == 'check' and e[1] == q and (_derived(e[2], marker) or e[2] == marker) for e in log)
             ctx.require(hit, 'R03.2', f'check_msgdict({t}).{attr}', w,
                         f'check_msgdict does not apply the {attr!r} check to the {attr!r} item',
